@@ -65,7 +65,7 @@ ASSUMPTIONS = [
 ]
 PROFILE = {
     "quick": dict(examples=4000, shards=16, budget_s=100),
-    "thorough": dict(examples=30000, shards=16, budget_s=1100),
+    "thorough": dict(examples=60000, shards=16, budget_s=1100),
 }
 
 NAN = float("nan")
